@@ -78,7 +78,7 @@ def product_of(val):
     elif v[0] == "call" and v[1] == "numpy.real" and len(v[2]) == 1:
         real, v = True, v[2][0]
     elif v[0] == "call" and v[1] in ("numpy.abs", "numpy.absolute", "builtins.abs") and len(v[2]) == 1:
-        real, v = False, v[2][0]       # modulus is not the real part: reported through the reduction obligation
+        real, v = "abs", v[2][0]       # modulus is not the real part: reported through the reduction obligation
     if v[0] == "call" and v[1] in (".sum", "numpy.sum") and v[2]:
         ax = kw(v, "axis", 1)
         p = v[2][0]
@@ -159,6 +159,10 @@ def check_arm(run, pkg, rank, linear, arm):
         run.ob("R-SIB", fq, f"{arm}:product", None, "product form recognised", show(val)[:120], loc=loc)
         return
     A, B, (red, axis, real) = pr
+    # the real part: taken -> True; modulus instead -> definitely different; absent -> definite only when the whole complex array
+    # becomes the result (a store into the real result array keeps the real part)
+    real_v = True if real is True else (False if (real == "abs" or ev.kind == "assign") else None)
+    real = real is True
     A0, ca = strip_conj(A)
     B0, cb = strip_conj(B)
     fa, pa = frame_of(A0)
@@ -170,13 +174,12 @@ def check_arm(run, pkg, rank, linear, arm):
     # ----- which factor is later
     if linear:
         if len(loops) < 2:
-            run.ob("R-LOOPDOM", fq, f"{arm}:loops", False, "evenly spaced frames are averaged over all origins (double loop)", f"{len(loops)} loops",
-                   witness="only one origin used for evenly spaced frames", loc=loc)
+            run.ob("R-LOOPDOM", fq, f"{arm}:loops", None, "evenly spaced frames are averaged over all origins (double loop)", f"{len(loops)} loops", loc=loc)
             return
         Ln, Lnn = loops[0], loops[1]
         n, nn = Ln.target, Lnn.target
         ok_n = eqv(Ln.iter, ("call", "builtins.range", (T_,), ()))
-        ok_nn = eqv(Lnn.iter, ("call", "builtins.range", (("bin", "+", n, C(1)),), ()), ("call", "builtins.range", (C(0), ("bin", "+", n, C(1))), ()))
+        ok_nn = eqv(Lnn.iter, ("call", "builtins.range", (("bin", "+", n, C(1)),), ()), ("call", "builtins.range", (C(0), ("bin", "+", n, C(1))), ()), same=True)
         run.ob("R-LOOPDOM", fq, f"{arm}:later", ok_n, "the later frame runs over all frames", show(Ln.iter)[:60],
                witness=None if ok_n else "frames skipped", loc=loc, sound=True)
         run.ob("R-LOOPDOM", fq, f"{arm}:lag", ok_nn, "the lag runs over 0..later (all origins, lag zero included)", show(Lnn.iter)[:60],
@@ -197,47 +200,58 @@ def check_arm(run, pkg, rank, linear, arm):
                    witness=None if ok_n else "frames skipped", loc=loc, sound=True)
             later, earlier, slot_want = n, C(0), n
     frames = {fa: (ca, "A"), fb: (cb, "B")}
-    ok_frames = {fa, fb} == {later, earlier} or (later == earlier and fa == fb)
+    def feq(x, y):
+        if isinstance(x, str) or isinstance(y, str):
+            return True if x == y else (None if (isinstance(x, str) and isinstance(y, str)) else False)
+        return eqv(x, y)
+    o1, o2 = tri(feq(fa, later), feq(fb, earlier)), tri(feq(fa, earlier), feq(fb, later))
+    ok_frames = True if (o1 is True or o2 is True) else (False if (o1 is False and o2 is False) else None)
+    if ok_frames and o1 is not True:
+        pass
     run.ob("R-SIB", fq, f"{arm}:frames", ok_frames, f"the two factors are the series at frame {show(later) if later != 'ALL' else 'each frame'} and at "
            f"{'the origin ' + show(earlier)}", f"frames {show(fa) if fa != 'ALL' else 'ALL'} and {show(fb) if fb != 'ALL' else 'ALL'}",
-           witness=None if ok_frames else "correlates the wrong pair of frames", loc=loc)
+           witness=None if ok_frames else "correlates the wrong pair of frames", loc=loc, sound=True)
     if ok_frames:
-        c_later = ca if fa == later else cb
-        c_earlier = cb if fa == later else ca
+        c_later = ca if o1 is True else cb
+        c_earlier = cb if o1 is True else ca
         if later == earlier:
             c_later, c_earlier = (ca, cb) if not ca else (cb, ca)
         okc = (not c_later) and c_earlier
         run.ob("R-SIB", fq, f"{arm}:conjugate", okc, "the value at the earlier frame (the origin) is conjugated, the later one is not",
                f"later conj={c_later}, earlier conj={c_earlier}", witness=None if okc else
                ("complex series: Re sum A(t) A(0) instead of Re sum A(t) conj(A(0))" if not (ca or cb) else
-                "conjugate on the later frame / both: imaginary part sign flips for complex series"), loc=loc)
+                "conjugate on the later frame / both: imaginary part sign flips for complex series"), loc=loc, sound=True)
     # ----- reduction
     if red == "sum":
         want_axis = None
         if later == "ALL":
             want_axis = C(1) if rank == 2 else ("tuple", (C(1), C(2)))
-        okr = (axis == want_axis) and real
+        okax = True if axis == want_axis else (eqv(axis, want_axis) if (axis is not None and want_axis is not None) else None)
+        okr = tri(okax, real_v)
         run.ob("R-SIB", fq, f"{arm}:reduction", okr, "real part of the sum over particles" + (" and components" if rank == 3 else ""),
-               f"sum(axis={show(axis) if axis else None}), real={real}", witness=None if okr else "reduction differs from Re sum_i", loc=loc)
+               f"sum(axis={show(axis) if axis else None}), real={real}", witness=None if okr else "reduction differs from Re sum_i (modulus / complex value / other axes)", loc=loc, sound=True)
         if rank == 4:
+            # both factors are bare entries of the series (frame_of accepted them): sum_ab A_ab B_ab
             run.ob("R-SIB", fq, f"{arm}:reduction-kind", False, "tensor series use the trace of the matrix product", "element-wise product used",
-                   witness="tensor A: sum A_ab A_ab differs from tr(A A^dagger-less product) used by the definition", loc=loc)
+                   witness="tensor A: sum A_ab A_ab differs from tr(A A^dagger-less product) used by the definition", loc=loc, sound=True)
     elif red == "dot":
-        okr = rank == 2 and real
+        okr = tri(True if rank == 2 else None, real_v)
         run.ob("R-SIB", fq, f"{arm}:reduction", okr, "real part of the sum over particles (inner product over the particle axis, scalar series only)", f"dot product, real={real}, rank {rank}",
-               witness=None if okr else "inner product is not Re sum_i for this rank", loc=loc)
+               witness=None if okr else "inner product is not Re sum_i for this rank", loc=loc, sound=True)
     elif red.startswith("einsum:"):
         kind = red.split(":")[1]
         want_kind = "trace+frames" if later == "ALL" else "trace"
-        okt = rank == 4 and kind == want_kind and real
+        okt = tri(True if (rank == 4 and kind == want_kind) else (False if kind.startswith("elementwise") and rank == 4 else None), real_v)
         run.ob("R-SIB", fq, f"{arm}:reduction", okt, "real part of sum over particles of the trace of the product of the two particle tensors (same particle in both factors)",
                f"einsum contraction classified as {kind}, real={real}", witness=None if okt else
-               ("sum_ab A_ab B_ab differs from tr(A B) for non-symmetric tensors" if kind.startswith("elementwise") else "contraction is not sum_p tr(A_p B_p)"), loc=loc)
+               ("sum_ab A_ab B_ab differs from tr(A B) for non-symmetric tensors" if kind.startswith("elementwise") else "contraction is not sum_p tr(A_p B_p)"), loc=loc, sound=True)
     else:
-        okt = rank == 4 and pa is not None and pa == pb and len(loops) >= (3 if linear else 2) and pa == loops[-1].target
-        run.ob("R-SIB", fq, f"{arm}:reduction", okt if rank == 4 else False, "trace of the product of the two particle tensors, same particle in both factors",
+        okt = None
+        if rank == 4 and pa is not None and pb is not None and len(loops) >= (3 if linear else 2):
+            okt = tri(eqv(pa, pb), eqv(pa, loops[-1].target))
+        run.ob("R-SIB", fq, f"{arm}:reduction", okt, "trace of the product of the two particle tensors, same particle in both factors",
                f"particle indices {show(pa) if pa else None}, {show(pb) if pb else None}",
-               witness=None if okt else "tensors of different particles multiplied", loc=loc)
+               witness=None if okt else "tensors of different particles multiplied", loc=loc, sound=True)
         if rank == 4 and loops:
             Lp = loops[-1]
             okp = eqv(Lp.iter, ("call", "builtins.range", (("attr", ("sub", ("attr", SN, "snapshots"), C(0)), "nparticle"),), ()))
@@ -245,27 +259,34 @@ def check_arm(run, pkg, rank, linear, arm):
     # ----- slot, counts
     if ev.kind == "store":
         slot = ev.data["target"][2]
-        oks = slot == slot_want
+        oks = eqv(slot, slot_want) if slot_want is not None else None
         run.ob("R-LOOPDOM", fq, f"{arm}:slot", oks, "the product is stored at slot = later frame - origin", f"slot {show(slot)}",
-               witness=None if oks else f"lag {show(slot_want) if slot_want else '?'} accumulated into slot {show(slot)}", loc=loc)
+               witness=None if oks else f"lag {show(slot_want) if slot_want else '?'} accumulated into slot {show(slot)}", loc=loc, sound=True)
         op = ev.data["op"]
         want_op = "+" if (linear or rank == 4) else None
-        okop = op == want_op
+        okop = True if op == want_op else (False if (want_op == "+" and op is None) else None)
         run.ob("R-LOOPDOM", fq, f"{arm}:accumulate", okop, "contributions are " + ("accumulated" if want_op else "assigned once"), f"operator {op}",
-               witness=None if okop else "origins/particles overwrite each other", loc=loc)
+               witness=None if okop else "origins/particles overwrite each other", loc=loc, sound=True)
         resarr = ev.data["target"][1]
         if linear:
             cnt = [e for e in stores(it) if e.loops == ev.loops and e.data["op"] == "+" and e.data["value"] == C(1) and e.data["target"][2] == slot_want]
             okcnt = len(cnt) == 1
-            run.ob("R-LOOPDOM", fq, f"{arm}:count", okcnt, "a count is incremented once per accumulated contribution, in the same slot", f"{len(cnt)} count statements",
+            run.ob("R-LOOPDOM", fq, f"{arm}:count", True if okcnt else None, "a count is incremented once per accumulated contribution, in the same slot", f"{len(cnt)} count statements",
                    witness=None if okcnt else "average over origins uses the wrong number of contributions", loc=loc)
             if okcnt:
                 carr = cnt[0].data["target"][1]
                 div = [e for e in it.events if e.kind == "aug" and e.data["op"] == "/" and e.data["old"] == resarr and e.data["value"] == carr and not e.loops
                        and e.seq > ev.seq]
-                okd = len(div) == 1
+                okd = True if len(div) == 1 else None
+                if not div:
+                    # the only divisions the accumulated array ever sees are by its own lag-zero element: never averaged
+                    selfnorm = {e.data["new"] for e in it.events if e.kind == "aug" and e.data["op"] == "/" and eqv(e.data["value"], ("sub", e.data["old"], C(0))) is True}
+                    other_div = [e for e in it.events if e.seq > ev.seq and ((e.kind == "aug" and e.data["op"] == "/" and e.data["new"] not in selfnorm)
+                                                                             or (e.kind in ("assign", "store") and any(x[0] == "bin" and x[1] in ("/", "//") and x not in selfnorm for x in walk(e.data["value"]))))]
+                    if not other_div:
+                        okd = False
                 run.ob("R-LOOPDOM", fq, f"{arm}:average", okd, "accumulated sums are divided by the counts after the loops", f"{len(div)} divisions",
-                       witness=None if okd else "sum over origins not turned into an average: long lags weighted less", loc=loc)
+                       witness=None if okd else "sum over origins not turned into an average: long lags weighted less", loc=loc, sound=True)
 
 
 def check_common(run, pkg):
@@ -290,7 +311,7 @@ def check_common(run, pkg):
             comp = e.data["value"][2][0]
             if comp[2][0] == "attr" and comp[2][2] == "timestep" and comp[3][0][1] == ("attr", SN, "snapshots"):
                 TS = e.data["value"]
-    run.ob("R-ALG", fq, "timesteps", TS is not None, "timesteps are read from every snapshot in order", show(TS)[:80] if TS else "not found",
+    run.ob("R-ALG", fq, "timesteps", True if TS is not None else None, "timesteps are read from every snapshot in order", show(TS)[:80] if TS else "not found",
            witness=None if TS is not None else "time axis not built from the frames' timesteps", loc=fi.loc())
     if tcol is not None and TS is not None:
         import sympy as sp
@@ -307,7 +328,7 @@ def check_common(run, pkg):
         check_algebra(run, "R-ALG", it, "time-axis", "t = (timestep - first timestep) * dt", tcol, (ts - t0) * dt, atom_of, fi.loc())
     # normalisation by lag zero: last aug on results before the frame
     if rcol is not None:
-        ok_norm = False
+        ok_norm = None
         for e in it.events:
             if e.kind == "aug" and e.data["op"] == "/" and not e.loops and e.data["new"] == rcol:
                 v = e.data["value"]
